@@ -462,6 +462,69 @@ pub fn run(tier: Tier) -> i32 {
         }
     });
     rep.count("compiler_candidates_confirmed", ok_c.load(std::sync::atomic::Ordering::Relaxed));
+    // compiler outputs at the limits of their context: conjunctions of n keys around the sizes where a
+    // standardness limit starts to bite; whatever the compiler returns must be within the limits
+    // (literal Bitcoin numbers) by its own static figures
+    {
+        use miniscript::policy::Concrete as C;
+        let mk_keys = |n: usize, uncompressed: bool| -> Vec<bitcoin::PublicKey> {
+            (1..=n).map(|i| { let k = crate::keys::key(&format!("K{}", i)); if uncompressed { bitcoin::PublicKey::new_uncompressed(k.pk) } else { bitcoin::PublicKey::new(k.pk) } }).collect()
+        };
+        let and_n = |ks: &[bitcoin::PublicKey]| -> C<bitcoin::PublicKey> {
+            let mut it = ks.iter().rev();
+            let mut acc = C::Key(*it.next().unwrap());
+            for k in it {
+                acc = C::And(vec![std::sync::Arc::new(C::Key(*k)), std::sync::Arc::new(acc)]);
+            }
+            acc
+        };
+        let mut n_limit = 0u64;
+        for unc in [false, true] {
+            for n in 8..=16usize {
+                let pol = and_n(&mk_keys(n, unc));
+                n_limit += 1;
+                if let Ok(Ok(ms)) = guard(|| pol.compile::<Legacy>()) {
+                    let size = ms.encode().len();
+                    let ss = ms.ext.sat_data.map(|d| d.max_script_sig_size).unwrap_or(usize::MAX);
+                    let ops = ms.ext.sat_data.map(|d| d.max_exec_op_count + ms.ext.static_ops).unwrap_or(usize::MAX);
+                    if size > 520 || ss > 1650 || ops > 201 {
+                        rep.violation(Violation {
+                            key: format!("C08|limits|legacy|and-{}-{}", n, unc),
+                            class: "compiler-output-exceeds-legacy-limits".into(),
+                            what: format!("compile::<Legacy>(and of {} {} keys) returns a script of {} bytes, scriptSig up to {} bytes, {} opcodes (limits 520 / 1650 / 201)", n, if unc { "uncompressed" } else { "compressed" }, size, ss, ops),
+                            case: json!({"keys": n, "uncompressed": unc, "output": ms.to_string()}),
+                        });
+                    } else {
+                        rep.count("limit_outputs_within_limits", 1);
+                    }
+                } else {
+                    rep.count("limit_compilations_refused", 1);
+                }
+            }
+        }
+        for n in [97usize, 99, 100, 101, 103, 104] {
+            let pol = and_n(&mk_keys(n, false));
+            n_limit += 1;
+            if let Ok(Ok(ms)) = guard(|| pol.compile::<Segwitv0>()) {
+                let size = ms.encode().len();
+                let items = ms.max_satisfaction_witness_elements().unwrap_or(usize::MAX);
+                let ops = ms.ext.sat_data.map(|d| d.max_exec_op_count + ms.ext.static_ops).unwrap_or(usize::MAX);
+                if size > 3600 || items > 100 || ops > 201 {
+                    rep.violation(Violation {
+                        key: format!("C08|limits|segwitv0|and-{}", n),
+                        class: "compiler-output-exceeds-segwit-limits".into(),
+                        what: format!("compile::<Segwitv0>(and of {} keys) returns a script of {} bytes, {} witness items, {} opcodes (limits 3600 / 100 / 201)", n, size, items, ops),
+                        case: json!({"keys": n, "output": ms.to_string()}),
+                    });
+                } else {
+                    rep.count("limit_outputs_within_limits", 1);
+                }
+            } else {
+                rep.count("limit_compilations_refused", 1);
+            }
+        }
+        rep.count("limit_compilations", n_limit);
+    }
     rep.sample(json!({"policy": pols.last().map(|p| p.sexpr())}));
     rep.sample(json!({"entry_points": ["compile::<Segwitv0|Tap|Legacy|BareCtx>", "compile_to_descriptor (Bare, Sh, Wsh, ShWsh, Tr)", "compile_tr", "compile_tr_native (caps 1, 2, 1024)", "compile_tr_private_experimental", "each with and without an unspendable key"]}));
     rep.assume("compiler Err is not a violation; the Ok ratio is reported");
